@@ -298,6 +298,7 @@ func runGen(job genJob) (res genResult) {
 // ---------- directly constructed IRs ----------
 type genIRJob struct {
 	NoGen   bool             `json:"nogen"` // chains and IR printing only
+	Timeout int              `json:"timeout_s"`
 	ID      string           `json:"id"`
 	Schemas []jSchema        `json:"schemas"`
 	Outdir  string           `json:"outdir"`
@@ -448,7 +449,11 @@ func init() {
 			if err := json.Unmarshal(in.Bytes(), &job); err != nil {
 				return err
 			}
-			printJSON(out, withWatchdog(job.ID, jobLimit(), func() genResult { return runGenIR(job) }))
+			limit := jobLimit()
+			if job.Timeout > 0 {
+				limit = time.Duration(job.Timeout) * time.Second
+			}
+			printJSON(out, withWatchdog(job.ID, limit, func() genResult { return runGenIR(job) }))
 		}
 		return in.Err()
 	}
